@@ -118,8 +118,10 @@ def plan(prop, tier):
                     floor_evaluations=5000, assumptions=SIMK_ASSUMPTIONS, also=["C08"])
     if prop == "C07":
         return explorer_plan(
-            "c07", tier, 2500, 40000, GEN_RULE + "; restricted to descriptor-creating operations (open/socket/accept/multishot accept on regular and on direct-descriptor listeners/pipe/to_direct/to_file, regular and direct), AsyncFd::close, standard-stream handles, 1-4 entry queues so that the synchronous close fallback runs; C07 oracle: descriptor ledger fed by the close(2) interposer, IORING_OP_CLOSE, files-update and the creating completions; direct indices live in 3000.. so that a descriptor closed as the wrong kind is unmistakable",
-            ["stdio-handle-dropped", "kind:SocketDirect", "kind:PipeDirect", "kind:Close", "kind:MultishotAccept", "kind:AcceptDirect", "kind:MultishotAcceptDirect", "drop:Single:in-flight", "drop:Single:completion-posted-not-consumed", "drop:Single:done-not-collected", "simk_closes"],
+            "c07", tier, 2500, 40000, GEN_RULE + "; restricted to descriptor-creating operations (open/socket/accept/multishot accept on regular and on direct-descriptor listeners/pipe/to_direct/to_file, regular and direct), AsyncFd::close, standard-stream handles, 1-4 entry queues so that the synchronous close fallback runs; C07 oracle: descriptor ledger fed by the close(2) interposer, IORING_OP_CLOSE, files-update and the creating completions; direct indices live in 3000.. so that a descriptor closed as the wrong kind is unmistakable; plus realmix on the real kernel: socket/pipe/to_direct operations (regular and direct) driven to completion, new pipes must carry bytes, descriptors dropped or closed explicitly at random, the process' descriptor count before/after each history and re-allocation of the whole direct table once every direct descriptor was dropped",
+            ["stdio-handle-dropped", "kind:SocketDirect", "kind:PipeDirect", "kind:Close", "kind:MultishotAccept", "kind:AcceptDirect", "kind:MultishotAcceptDirect", "drop:Single:in-flight", "drop:Single:completion-posted-not-consumed", "drop:Single:done-not-collected", "simk_closes", "real_descriptor_ops"],
+            extra_quick=[gen_job("realmix", "native-debug", 1000, 8, timeout=600)],
+            extra_thorough=[gen_job("realmix", "native-debug", 30000, 16, timeout=3000), gen_job("realmix", "native-release", 30000, 16, timeout=3000)],
         )
     if prop == "C12":
         import math
